@@ -764,7 +764,7 @@ func stressCancel(seed int64, scale int) int {
 			defer wg.Done()
 			rng := rand.New(rand.NewSource(s))
 			for i := 0; i < per; i++ {
-				stack := rng.Intn(9)
+				stack := rng.Intn(13)
 				source := rng.Intn(4) // 0 ctx cancel, 1 ctx deadline, 2 async Cancel, 3 enclosing Timeout
 				at := time.Duration(rng.Intn(1500)) * time.Microsecond
 				var fbCalls, lateStarts atomic.Int32
@@ -802,8 +802,22 @@ func stressCancel(seed int64, scale int) int {
 					// the bulkhead encloses the retry and is full: the execution waits for a permit before the first attempt
 					bh.TryAcquirePermit()
 					ps, name = []failsafe.Policy[int]{bh, rp}, "bulkhead(full)>retry"
+				case 9:
+					ps, name = []failsafe.Policy[int]{hp}, "hedge"
+				case 10:
+					ps, name = []failsafe.Policy[int]{hp, rp}, "hedge>retry"
+				case 11:
+					bh.TryAcquirePermit()
+					ps, name = []failsafe.Policy[int]{bh, hp}, "bulkhead(full)>hedge"
+				case 12:
+					ps, name = []failsafe.Policy[int]{fb, hp}, "fallback>hedge"
 				}
 				fnDur := time.Duration(rng.Intn(400)) * time.Microsecond
+				if stack == 9 || stack == 11 || stack == 12 {
+					// without a retry policy the execution would complete on its own: its attempts only return once cancelled, so
+					// that the cancellation is what ends it
+					fnDur = 2 * time.Second
+				}
 				fn := func(e failsafe.Execution[int]) (int, error) {
 					if c := cancelledAt.Load(); c != 0 && time.Now().UnixNano() > c+int64(100*time.Microsecond) && !e.IsCanceled() {
 						lateStarts.Add(1) // started clearly after the cancellation without observing it
